@@ -398,6 +398,79 @@ def r6_boolean(ctx, prog):
                 r.ok(f['qname'], site, '%d paths' % len(o.outcomes), file=f['file'], line=f['line'])
 
 
+def r4b_keygen_mechanism(ctx, prog):
+    """The CKA_KEY_GEN_MECHANISM a generator records is the mechanism under which C_GenerateKey / C_GenerateKeyPair dispatches to it, for every object it creates (both halves of a pair)."""
+    r = ctx.rule('C08.R4b', 'a generated key records the mechanism that generated it (dispatch mechanism = recorded CKA_KEY_GEN_MECHANISM, both halves of a pair alike)', floor=10, engine='E1+E7')
+    dispatch = {}
+
+    def rec(node, conds):
+        if not isinstance(node, dict):
+            return
+        k = node.get('k')
+        if k == 'If':
+            m = [x for x in re.findall(r'CKM_\w+', canon(node['c'])) if 'mechanism' in canon(node['c']) and '==' in canon(node['c'])]
+            rec(node['t'], conds + m[:1] if len(set(m)) == 1 and '&&' not in canon(node['c']) and '||' not in canon(node['c']) else conds)
+            rec(node.get('e'), conds)
+            return
+        if k == 'Switch' and canon(node['c']).endswith('mechanism'):
+            for labels, body in tables.switch_cases(node):
+                for st in body:
+                    rec(st, conds + [l for l in labels if l and l.startswith('CKM_')][:1] if len([l for l in labels if l]) == 1 else conds)
+            return
+        if k == 'Call' and re.fullmatch(r'SoftHSM::generate\w+', node.get('callee') or '') and conds:
+            dispatch.setdefault(node['callee'], set()).add(conds[-1])
+        for key, v in node.items():
+            if isinstance(v, dict):
+                rec(v, conds)
+            elif isinstance(v, list):
+                for x in v:
+                    rec(x, conds)
+    for q in ('SoftHSM::C_GenerateKey', 'SoftHSM::C_GenerateKeyPair'):
+        f = prog.fn(q)
+        ctx.analysed(f)
+        rec(f['body'], [])
+    pm = prog.fn('SoftHSM::prepareSupportedMecahnisms')
+    advertised = set(re.findall(r'CKM_\w+', ' '.join(canon(n) for n in walk(pm['body']) if n.get('k') in ('Lit', 'Str'))))
+    advertised |= {tables.lit_name(n) for n in walk(pm['body']) if n.get('k') == 'Lit' and (tables.lit_name(n) or '').startswith('CKM_')}
+    if len(advertised) < 40:
+        raise AnalysisBroken('mechanism table of prepareSupportedMecahnisms not read (%d names)' % len(advertised))
+    if len(dispatch) < 8:
+        raise AnalysisBroken('only %d generator dispatches recognised in C_GenerateKey / C_GenerateKeyPair' % len(dispatch))
+    for g, mechs in sorted(dispatch.items()):
+        fs = prog.fns(g)
+        if not fs:
+            continue
+        f = fs[0]
+        ctx.analysed(f)
+        recorded = []
+        for n in walk(f['body']):
+            if n.get('k') == 'Decl':
+                for d in n['decls']:
+                    if d['var']['name'] == 'ulKeyGenMechanism' and d.get('init') is not None:
+                        recorded.append((tables.lit_name(d['init']) or canon(d['init']), n['l']))
+        # values handed to setAttribute(CKA_KEY_GEN_MECHANISM, <literal>) directly
+        for c in calls(f['body'], short='setAttribute'):
+            if len(c.get('args', [])) == 2 and canon(c['args'][0]) == 'CKA_KEY_GEN_MECHANISM':
+                lits = [tables.lit_name(x) for x in walk(c['args'][1]) if x.get('k') == 'Lit' and (tables.lit_name(x) or '').startswith('CKM_')]
+                if lits:
+                    recorded.append((lits[0], c['l']))
+        site = 'recorded mechanism'
+        want = sorted(mechs)
+        wrong = [(v, l) for v, l in recorded if v not in mechs]
+        if not recorded:
+            r.undecided(g, site, 'no CKA_KEY_GEN_MECHANISM value found', file=f['file'], line=f['line'])
+        elif len(mechs) != 1:
+            r.undecided(g, site, 'dispatched under several mechanisms %s' % want, file=f['file'], line=f['line'])
+        elif wrong and want[0] not in advertised:
+            r.excepted(g, site, 'records %s instead of %s, but %s is not in the mechanism table of this configuration (built without WITH_GOST), and C_GenerateKeyPair refuses mechanisms that are not advertised (C07.R2): unreachable here; '
+                       'with GOST enabled this would be a defect (noted in DESIGN.md)' % (wrong[0][0], want[0], want[0]), file=f['file'], line=wrong[0][1])
+        elif wrong:
+            r.violation(g, site, 'the generator is reached for %s but records CKA_KEY_GEN_MECHANISM = %s (line %s): the key lies about how it was made (the other object of the pair records %s)' % (
+                want[0], wrong[0][0], wrong[0][1], '/'.join(sorted({v for v, _ in recorded if v in mechs})) or '-'), file=f['file'], line=wrong[0][1])
+        else:
+            r.ok(g, site, '%s recorded %d time(s)' % (want[0], len(recorded)), file=f['file'], line=recorded[0][1])
+
+
 def run(ctx):
     prog = ctx.prog('ossl-file')
     r1_engine(ctx, prog)
@@ -408,9 +481,12 @@ def run(ctx):
     r6_boolean(ctx, prog)
     from rules import c02
     c02.r4_oneway(ctx, prog, rule_id='C08.R7')
+    r4b_keygen_mechanism(ctx, prog)
 
 
 MUTANTS = [
+    dict(name='generateed-private-records-ec-mechanism', rule='C08.R4b', file='src/lib/SoftHSM.cpp', after='CK_RV SoftHSM::generateED',
+         old='\t\t\t\tCK_ULONG ulKeyGenMechanism = (CK_ULONG)CKM_EC_EDWARDS_KEY_PAIR_GEN;', new='\t\t\t\tCK_ULONG ulKeyGenMechanism = (CK_ULONG)CKM_EC_KEY_PAIR_GEN;'),
     dict(name='update-no-ck2-test', rule='C08.R1', file='src/lib/P11Attributes.cpp', after='CK_RV P11Attribute::update(',
          old='\t\tif (OBJECT_OP_CREATE==op)\n\t\t{\n\t\t\tERROR_MSG("Prohibited attribute was passed to object creation function");\n\t\t\treturn CKR_ATTRIBUTE_READ_ONLY;\n\t\t}',
          new='\t\tif (OBJECT_OP_CREATE==op && !isModifiable())\n\t\t{\n\t\t\treturn CKR_ATTRIBUTE_READ_ONLY;\n\t\t}'),
